@@ -110,6 +110,33 @@ impl BinOp {
         }
     }
 
+    /// Whether an operand whose top level operator is `self` has to be wrapped in
+    /// parenthesis to keep its grouping when it is written as the left or right
+    /// operand of `parent`.
+    pub(crate) fn operand_needs_parenthesis(&self, parent: BinOp, is_rhs: bool) -> bool {
+        if self.precedence() != parent.precedence() {
+            return self.precedence() < parent.precedence();
+        }
+        if is_rhs {
+            //a - (b - c), a / (b * c): without parenthesis the operand regroups to the
+            //left, which is only harmless when the parent is associative over the child
+            let regrouping_is_harmless = matches!(
+                (parent, self),
+                (BinOp::Add, BinOp::Add | BinOp::Sub)
+                    | (BinOp::Mul, BinOp::Mul | BinOp::Div)
+                    | (BinOp::And, BinOp::And)
+                    | (BinOp::Or, BinOp::Or)
+                    | (BinOp::Xor, BinOp::Xor)
+                    | (BinOp::Iff, BinOp::Iff)
+            );
+            parent.is_left_associative() && !regrouping_is_harmless
+        } else {
+            //(a implies b) implies c: a right associative operand on the left would
+            //regroup to the right
+            !self.is_left_associative()
+        }
+    }
+
     /// Returns true if the operator is a logic operator.
     pub fn is_logic(&self) -> bool {
         match self {
